@@ -83,6 +83,15 @@ def run(tier, seed, report):
                 f = rng.choice(fmts_pool)
                 script.append(store_metadata(p, ("ok", toks[1], "str", 0), f))
                 metas[(p, NS if f is None else f)] = toks[1]
+            if rng.random() < 0.5:
+                # a list that has been through a removal is laid out like one that never held the pid
+                extra = rng.choice([q for q in pids_pool if q not in pids])
+                script.append(store_object(extra, ("ok", toks[0], "bytesio", 0)))
+                binds[extra] = toks[0]
+                victim = rng.choice([pids[0], pids[1], extra])
+                script.append(delete_object(victim))
+                del binds[victim]
+                metas = {k: v for k, v in metas.items() if k[0] != victim}
             dis = None
             for c in script:
                 st = trio.run(c)
